@@ -18,6 +18,17 @@ CLAIMED = {
    note="only the RDMA engine's clauses; data equality across GPU sets and the driver's distribution arithmetic are not decided"),
 }
 
+CLAIMED.update({
+ "C17": dict(
+   text="Structural clauses of the banked DRAM model on all paths: one response per request under back-pressure (CanSend/Send discipline, pop after success, storage access once across retries), per-byte mask guard of masked writes, conservation of requests in the dispatch and drain loops, per-bank arrival order (no direct pipeline entry while the delay queue may hold earlier requests), provenance of response fields and storage accesses. Read-after-write values and latency independence are runtime quantities and are not decided.",
+   ref="4/C17", technique="SSA path analysis (SEND-DISCIPLINE, must-pass, exactly-one-sink per loop iteration), dominance cuts (GUARD), value provenance (FIELDS)",
+   note="akita pipelining/Storage trusted; bank selection arithmetic and latencies not decided; one recorded known finding (row-hit fast path)"),
+ "C19": dict(
+   text="Structural clauses of page migration on all paths: back-pressure discipline and the retry-list idiom on every PMC send stage, field/ID threading of the chunk pipeline (cursor steps = transfer unit, chunk count = page size / unit), completion built once at counter 0, one migration at a time, the driver's drain-shootdown-migrate-restart stage order (each stage only at its predecessor's counter 0), request fields old PAddr -> newly allocated page. Byte equality of page contents is not decided.",
+   ref="4/C19", technique="SSA path analysis (SEND-DISCIPLINE, retry-list rule, must-pass), dominance cuts on counter==0 (GUARD), value provenance (FIELDS)",
+   note="page contents and page-size divisibility not decided; 13 unchecked Sends of the CP control middleware recorded as known findings"),
+})
+
 PENDING = {}
 
 NOT_APPLICABLE = {
